@@ -14,6 +14,7 @@ import (
 	"github.com/graphql-go/graphql/language/parser"
 	"github.com/graphql-go/graphql/language/printer"
 	"github.com/graphql-go/graphql/language/source"
+	"github.com/graphql-go/graphql/language/visitor"
 )
 
 func init() { props["C08"] = genC08 }
@@ -91,6 +92,39 @@ func c08RoundTrip(e *Emitter, group string, src []byte, tags []string) {
 	e.Emit(c)
 }
 
+// visitor.Visit with a leave function for Name nodes: returning a string must leave the AST alone
+// (the printer's reducers do exactly that); returning a node is written into the parent struct
+// (updateNodeField) -- the branch the model of Syntax/PrintVisit.v exhibits.
+func c08VisitEdit(e *Emitter) {
+	run := func(node bool) (bool, string) {
+		doc, ok := c08Parse([]byte("{ a }"))
+		if !ok {
+			return false, "cannot parse { a }"
+		}
+		before := c03Doc(doc)
+		pm := guard(func() {
+			visitor.Visit(doc, &visitor.VisitorOptions{LeaveKindMap: map[string]visitor.VisitFunc{
+				"Name": func(p visitor.VisitFuncParams) (string, interface{}) {
+					if node {
+						return visitor.ActionUpdate, ast.NewName(&ast.Name{Value: "zz"})
+					}
+					return visitor.ActionUpdate, "zz"
+				},
+			}}, nil)
+		})
+		return before != c03Doc(doc), pm
+	}
+	sc, pm1 := run(false)
+	nc, pm2 := run(true)
+	c := Case{Group: "visit-edit", NT: true, Tags: []string{"visit-edit"}, Desc: map[string]interface{}{"source": "{ a }", "string_result_changed_ast": sc, "node_result_changed_ast": nc}}
+	if pm1 != "" || pm2 != "" {
+		c.Fail = "visitor.Visit: " + pm1 + pm2
+	} else {
+		c.Coq = fmt.Sprintf("VisitEdit %s %s", coqBool(sc), coqBool(nc))
+	}
+	e.Emit(c)
+}
+
 // a GraphQL string literal denoting s (valid UTF-8), written with \uXXXX for everything special
 func c08Literal(s string) string {
 	var b strings.Builder
@@ -116,11 +150,95 @@ func c08RandString(r *Rng, max int) string {
 	return sb.String()
 }
 
+// descriptions that the printer may print as block strings: lines of words with indentation, tabs,
+// quotes and backslashes inside, blank lines, multi-byte characters; now and then something that forces
+// the quoted form (triple quote, trailing quote or backslash, blank first/last line, common indentation, CR)
+var c08DescWords = []string{"a", "b c", "x\"y", "p\\q", "é", "\U0001F600", "#", "w,", "\"\"", "{}", "\u2028"}
+var c08DescSpoil = []string{"\"\"\"", "\"", "\\", "\r", "\ufeff", "\x07", "\f"}
+
+func c08RandDesc(r *Rng) string {
+	var sb strings.Builder
+	lines := 1 + r.Intn(4)
+	if r.Chance(40) {
+		lines = 1
+	}
+	for i := 0; i < lines; i++ {
+		if i > 0 {
+			sb.WriteString("\n")
+			if r.Chance(15) {
+				continue // blank line
+			}
+			sb.WriteString(r.Pick([]string{"", "", " ", "  ", "    ", "\t", " \t"}))
+		} else if r.Chance(8) {
+			sb.WriteString(r.Pick([]string{" ", "\t", "\n"}))
+		}
+		for j, k := 0, 1+r.Intn(3); j < k; j++ {
+			if j > 0 {
+				sb.WriteString(r.Pick([]string{" ", "  ", "\t"}))
+			}
+			sb.WriteString(r.Pick(c08DescWords))
+		}
+		if r.Chance(6) {
+			sb.WriteString(r.Pick(c08DescSpoil))
+		}
+		if i == lines-1 && r.Chance(8) {
+			sb.WriteString(r.Pick([]string{" ", "\n", "\n  "}))
+		}
+	}
+	return sb.String()
+}
+
+// a type-system document in which every description position is filled from c08RandDesc (or left out)
+func c08RandSDL(r *Rng) string {
+	d := func() string {
+		switch r.Intn(5) {
+		case 0:
+			return ""
+		case 1:
+			return c08Literal(c08RandString(r, 5)) + " "
+		default:
+			return c08Literal(c08RandDesc(r)) + " "
+		}
+	}
+	dirs := func() string { return r.Pick([]string{"", "", " @d", " @d(x: 1) @e(s: \"v\")"}) }
+	args := func() string {
+		switch r.Intn(4) {
+		case 0:
+			return ""
+		case 1:
+			return "(x: Int)"
+		case 2:
+			return "(" + d() + "x: Int = 1" + dirs() + ", " + d() + "y: [S!]! = [\"k\"])"
+		default:
+			return "(" + d() + "x: Int " + d() + "y: S" + dirs() + " z: T)"
+		}
+	}
+	field := func() string { return d() + "f" + args() + ": [T]!" + dirs() + " " }
+	switch r.Intn(8) {
+	case 0:
+		return d() + "type T" + r.Pick([]string{"", " implements A", " implements & A & B", " implements A & B & C"}) + dirs() + " { " + field() + field() + "}"
+	case 1:
+		return d() + "interface I" + dirs() + " { " + field() + "}"
+	case 2:
+		return d() + "enum E" + dirs() + " { " + d() + "A" + dirs() + " " + d() + "B }"
+	case 3:
+		return d() + "input I" + dirs() + " { " + d() + "a: Int = 1" + dirs() + " " + d() + "b: S }"
+	case 4:
+		return d() + "directive @d" + args() + " on A | B"
+	case 5:
+		return "extend " + d() + "type T" + dirs() + " { " + field() + "}"
+	case 6:
+		return d() + "union U" + dirs() + " = A | B " + d() + "scalar S" + dirs()
+	default:
+		return "schema" + dirs() + " { query: Q mutation: M } " + d() + "scalar S"
+	}
+}
+
 func genC08(tier string, seed uint64, n int, e *Emitter) {
 	if n == 0 {
-		n = 500
+		n = 250
 		if tier == "thorough" {
-			n = 12000
+			n = 6000
 		}
 	}
 	// (a) corpus: the defects repaired by 0b37274 / 19a7c38, the mutants' witnesses, kitchen-sink files
@@ -133,6 +251,12 @@ func genC08(tier string, seed uint64, n int, e *Emitter) {
 		`query Q($a: [Int!]! = [1, 2] , $b: S = {k: "v", l: [true, null_]}) @d { a: b(x: $a, y: ENUM) @e { c } }`, `subscription { a }`, `mutation M { a }`, `{ a }`, `query { a }`, `query @d { a }`, `query ($a: Int) { a }`,
 		`schema @d { query: Q mutation: M }`, `type T {}`, `enum E {}`, `input I {}`, `interface I {}`, `type T @d {}`, `{ a(x: []) b(y: {}) c(z: [[]]) d(w: {e: {}}) }`, `{ a(x: """block\n  string""") }`, "{ a(x: \"\"\"\n  multi\n    line\n  \"\"\") }",
 		`fragment F on T @d { a }`, `directive @d on A`, `scalar S @d(x: "y")`, `union U @d = A`, `enum E @d { A @e B }`,
+		// block-string descriptions at every nesting depth, next to quoted ones; the one-per-line argument layout
+		`"a\n b\nc" type T { "f\n  g\nh" a("q\n\tr\ns" x: Int, "quoted\"" y: Int, z: Int): Int "one line" b(x: Int, "plain" y: Int): Int }`,
+		`"a\n b" type T { a: Int }`, `"a\n\nb" scalar S`, `"a\n \nb" scalar S`, `"tab\there" scalar S`, `" lead" scalar S`, `"trail " scalar S`, `"a\n" scalar S`, `"\ta\nb" scalar S`,
+		`"x\\y\"z" scalar S`, `"\\\"\"\"" scalar S`, `"é\n😀" enum E { "é\n 😀\nz" A }`, `extend "d\ne" type T implements & A & B @x { "f\ng" a("h\ni" x: Int = 1 @y): Int }`,
+		`"d\ne" directive @d("a\nb" x: Int = 1, y: S) on A | B | C`, `"d" input I { "a\nb" a: Int = 1 @x b: S = {k: [1, "s"]} }`, `type T implements & A { a: Int }`, `schema @a @b(x: 1) { query: Q mutation: M subscription: S }`,
+		`"""block\n  string""" type T { """  indented\n  block""" a: Int }`, "\"\"\"\n  a\n    b\n  c\n\"\"\" scalar S",
 	} {
 		c08RoundTrip(e, "corpus", []byte(s), []string{"corpus"})
 	}
@@ -145,6 +269,7 @@ func genC08(tier string, seed uint64, n int, e *Emitter) {
 			c08RoundTrip(e, "corpus", b, []string{"corpus", "kitchen-sink"})
 		}
 	}
+	c08VisitEdit(e)
 	// (b) string values: every single character of the stress alphabet, then random strings
 	for _, a := range c08StrAlphabet {
 		c08RoundTrip(e, "string", []byte("{ a(x: "+c08Literal(a)+") }"), []string{"string"})
@@ -163,6 +288,15 @@ func genC08(tier string, seed uint64, n int, e *Emitter) {
 			kinds := []string{"scalar S", "enum E { " + c08Literal(c08RandString(r, 5)) + " A }", "input I { " + c08Literal(c08RandString(r, 5)) + " a: Int }", "interface I { a: Int }", "union U = A", "directive @d(" + c08Literal(c08RandString(r, 5)) + " x: Int) on A"}
 			c08RoundTrip(e, "description", []byte(c08Literal(s)+" "+r.Pick(kinds)), []string{"description"})
 		}
+	}
+	// (b') type-system documents whose descriptions exercise the block-string / quoted-string decision
+	for i := 0; i < n; i++ {
+		r := NewRng(seed^0x5d1, uint64(i))
+		src := c08RandSDL(r)
+		for j, k := 0, r.Intn(3); j < k; j++ {
+			src += " " + c08RandSDL(r)
+		}
+		c08RoundTrip(e, "sdl-description", []byte(src), []string{"sdl-description"})
 	}
 	// (c) grammar-generated documents (the C03 generator), laid out with random separators
 	for i := 0; i < n; i++ {
